@@ -1,5 +1,6 @@
 import Nic.Proto
 import Nic.Model.Arb
+import Nic.Model.Report
 import Nic.Spec.Arb
 /-! Driver for the arbitration model: parses the op encoding shared with the Go
 harness (harness/internal/k8s/zz_verif_arb.go) and prints observations in the
@@ -104,6 +105,18 @@ def obs (s : State) (cs : List Change) (ps : List Problem) : String :=
   let r := (resources s).map fun kv => snap kv.2
   s!"C={joinWith "," c}#P={joinWith "," p}#R={joinWith "," r}"
 
+def goneOf (o : String) : String :=
+  match o.splitOn "|" with
+  | ["del", "ing", k] => "Ingress/" ++ k
+  | ["del", "vs", k] => "VirtualServer/" ++ k
+  | ["del", "vsr", k] => "VirtualServerRoute/" ++ k
+  | ["del", "ts", k] => "TransportServer/" ++ k
+  | _ => ""
+
+def evStr (o : String) (cs : List Change) (ps : List Problem) : String :=
+  "#EV=" ++ joinWith "," ((eventsOf (goneOf o) cs ps).map fun e =>
+    s!"{e.key}~{e.typ}~{e.reason}~{(codes e.codes).replace " " "_"}")
+
 def runArb (fs : List String) : String × String :=
   let cfg : Cfg := { passthrough := kv fs "pt" == "1", certManager := kv fs "cm" == "1" }
   let forb := (splitOn (kv fs "forb") "+").map nat
@@ -114,11 +127,11 @@ def runArb (fs : List String) : String × String :=
     | .bad => (s, outs ++ ["bad-op"], specs ++ ["bad-op"])
     | .op op =>
       let (s', cs, ps) := step id s op
-      (s', outs ++ [obs s' cs ps], specs ++ [Spec.render s'.toObjs])
+      (s', outs ++ [obs s' cs ps ++ evStr o cs ps], specs ++ [Spec.render s'.toObjs])
     | .gcRaw raw =>
       let a := admitAll forb okIp4 okIp6 raw
       let (s', cs, ps) := step id s (.gc a.out)
-      (s', outs ++ [obs s' cs ps ++ s!"#L={joinWith "+" ((idxOf raw a.out).map toString)}#E={b01 (!a.dropped.isEmpty)}"],
+      (s', outs ++ [obs s' cs ps ++ evStr o cs ps ++ s!"#L={joinWith "+" ((idxOf raw a.out).map toString)}#E={b01 (!a.dropped.isEmpty)}"],
         specs ++ [Spec.render s'.toObjs ++ s!"#A={joinWith "+" ((idxOf raw (Spec.admitSpec forb okIp4 okIp6 raw)).map toString)}"])) (({ toObjs := { cfg := cfg } } : State), [], [])
   (joinWith ";;" outs, joinWith ";;" specs)
 
